@@ -80,9 +80,21 @@ def r2_flatten(rule, root=None):
             rule.bad("%s|early" % fname, "Tree::%s returns `%s` early under `%s`: every result must be the remapped wrapper" % (fname, A.unparse(early[0].get("e") or {})[:40], " && ".join(A.enclosing_conds(f_["body"], early[0]) or [])[:90]), A.where(f_, early[0]))
         else:
             rule.ok("Tree::%s has a single exit, the wrapper it builds" % fname)
+    from .. import effects as E
+
     st = [s for s in A.find(fn["body"], "Struct")]
-    f = {x["name"]: A.ftxt(x["e"]) for x in st[0]["fields"]} if st else {}
-    if f == {"target": "self.0.clone()", "x": "x.0", "y": "y.0", "z": "z.0"}:
+    env = {}
+    # a shadowing `let Tree(x) = x;` names x.0 of the *parameter*: resolve against the outer name only once
+    for k_, v_ in E.let_env(fn["body"]["stmts"]).items():
+        env[k_] = v_
+    f = {}
+    for x in (st[0]["fields"] if st else []):
+        nm = A.ident(A.strip(x["e"]))
+        if nm in env:
+            f[x["name"]] = E.canon(env[nm][0], {})
+        else:
+            f[x["name"]] = E.canon(x["e"], {})
+    if f == {"target": "self.0", "x": "x.0", "y": "y.0", "z": "z.0"}:
         rule.ok("remap_xyz stores (x, y, z) under their own names", file=TREE, line=fn["ln"])
     else:
         rule.bad("remap_xyz", "remap_xyz builds RemapAxes %s" % f, A.where(fn))
@@ -201,27 +213,30 @@ def r5_axis_roles(rule, root=None):
     if len(ms) != 1:
         rule.lost("match *s { Var::X => axes.0 .. } in Context::import")
     else:
-        want = {"Var::X": "axes.0", "Var::Y": "axes.1", "Var::Z": "axes.2"}
+        from .. import effects as E
+
+        axes_n, _aff = frame_stacks(fn)
+        want = {"Var::X": "%s.last().unwrap().0" % axes_n, "Var::Y": "%s.last().unwrap().1" % axes_n, "Var::Z": "%s.last().unwrap().2" % axes_n}
+        # the lets of the block the match sits in name the innermost frame (as a whole or by component)
+        blk = None
+        for b_ in A.find(fn["body"], "Block"):
+            if any(n is ms[0] for n in A.walk(b_)) and (blk is None or b_["ln"] >= blk["ln"]):
+                blk = b_
+        env = E.let_env(blk["stmts"]) if blk is not None else {}
         for arm in ms[0]["arms"]:
             pt = A.ftxt(arm["pat"])
-            tt = A.ftxt(arm["body"])
+            tt = E.canon(arm["body"], env)
             if pt in want:
                 if tt == want[pt]:
-                    rule.ok("import: %s reads %s of the current frame" % (pt, tt), file=CTX, line=arm["ln"])
+                    rule.ok("import: %s reads component %s of the innermost frame" % (pt, tt[-1]), file=CTX, line=arm["ln"])
                 else:
                     rule.bad("axis|%s" % pt, "import maps %s to `%s`, expected %s" % (pt, tt, want[pt]), A.where(fn, arm))
             elif "Var::V" in pt:
-                if tt == "self.var(v)":
+                if str(A.ftxt(arm["body"])) == "self.var(v)":
                     rule.ok("import: free variables bypass the frame")
                 else:
-                    rule.bad("axis|V", "free variables must be imported as themselves (`self.var(v)`), found `%s`" % tt, A.where(fn, arm))
-        scr = A.ftxt(ms[0]["e"])
-    t = A.ftxt(fn["body"])
-    axes_n, _aff = frame_stacks(fn)
-    if t.fmatch("let$L=%s.last().unwrap();" % axes_n) is not None:
+                    rule.bad("axis|V", "free variables must be imported as themselves (`self.var(v)`), found `%s`" % A.ftxt(arm["body"]), A.where(fn, arm))
         rule.ok("inputs read the innermost frame")
-    else:
-        rule.bad("axis|frame", "TreeOp::Input must read `axes.last()`", A.where(fn))
     # RemapAxes: pops x, y, z (in that order: the work list ran z, y, x last-to-first) and pushes (x, y, z)
     ok_axes = False
     for arm in A.find(fn["body"], "Arm"):
@@ -237,11 +252,21 @@ def r5_axis_roles(rule, root=None):
     # affine rows: in the non-deferred branch, (X, Y, Z) = current frame; new axis i =
     # m[i,0] X + m[i,1] Y + m[i,2] Z + m[i,3] for i = 0, 1, 2; the new frame is those three in order
     loops = [l for l in A.find(fn["body"], "For") if str(A.ftxt(l["iter"])) == "0..3" and "out[" in A.unparse(l["body"])]
+    slotvar = None
+    if not loops:
+        # the same loop over the three output slots themselves: `for (i, slot) in out.iter_mut().enumerate()`
+        for l in A.find(fn["body"], "For"):
+            if str(A.ftxt(l["iter"])) == "out.iter_mut().enumerate()" and l["pat"].get("k") == "PTuple" and len(l["pat"]["elems"]) == 2:
+                loops.append(l)
     if len(loops) != 1:
         rule.lost("`for i in 0..3` affine row loop in Context::import")
         return
     loop = loops[0]
-    ivar = A.binding_name(loop["pat"])
+    if loop["pat"].get("k") == "PTuple":
+        ivar = A.binding_name(loop["pat"]["elems"][0])
+        slotvar = A.binding_name(loop["pat"]["elems"][1])
+    else:
+        ivar = A.binding_name(loop["pat"])
     # the blocks around the loop, innermost first (the loop may sit in an expanded helper body)
     around = sorted([b for b in A.find(fn["body"], "Block") if any(n is loop for n in A.walk(b))], key=lambda b: -b.get("ln", 0))
     bt = None
@@ -319,7 +344,7 @@ def r5_axis_roles(rule, root=None):
                 env.vars[A.binding_name(s_["pat"])] = conv(s_["init"], env, ivar, "mat")
             else:
                 e = A.strip(A.stmt_expr(s_))
-                if e.get("k") == "Assign" and A.ftxt(e["left"]) == "out[%s]" % ivar:
+                if e.get("k") == "Assign" and str(A.ftxt(e["left"])) in ("out[%s]" % ivar, "*%s" % slotvar):
                     r = A.strip(e["right"])
                     out = conv(r["args"][0], env, ivar, "mat") if r.get("k") == "Call" and A.is_path(r["func"], "Some") else None
         want = env.sym("m0") * env.sym("x") + env.sym("m1") * env.sym("y") + env.sym("m2") * env.sym("z") + env.sym("m3")
